@@ -110,6 +110,19 @@ def aggregation_coherence():
   return v
 
 
-GROUPS = [('range_restriction', range_restriction), ('injected_capture', injected_capture),
+def head_text():
+  """text left over in a rule head after its call (a stray word, a dropped `;` before the rule), with
+  and without the `distinct` keyword (added after seeded change C19-r7)"""
+  v = []
+  for distinct in ('', ' distinct'):
+    for junk in ('', ' junk', ' 5', ' Q(x)'):
+      v.append((E + 'P(x)%s%s :- T(x, y);\n' % (junk, distinct), 'P', bool(junk)))
+    # a dropped semicolon glues a fact to the next rule
+    v.append((E + 'Q(1)\nP(x)%s :- T(x, y);\n' % distinct, 'P', True))
+    v.append((E + 'Q(1);\nP(x)%s :- T(x, y);\n' % distinct, 'P', False))
+  return v
+
+
+GROUPS = [('head_text', head_text), ('range_restriction', range_restriction), ('injected_capture', injected_capture),
           ('functor_arguments', functor_arguments), ('recursion_base', recursion_base),
           ('annotation_targets', annotation_targets), ('aggregation_coherence', aggregation_coherence)]
